@@ -28,8 +28,8 @@ class C05(LogCheck):
     rule = ("cases are programs `m<min> op…` over: threshold changes, one-expression statements, named stream objects "
             "(open/put/close in 4 variables) and stream-type queries, for 10 logger types (filter shapes of depth <= 3 over two "
             "threshold filters and the null filter; 1-3 sequence members). quick: every (minimum, logger, relevant threshold "
-            "setting, severity, form) with rotating item shapes/tags + all 40 item shapes x forms x tags x severities x minima "
-            "under two loggers + random programs and statement sequences from VERIF_SEED; thorough: the complete single-statement "
+            "setting, severity, form) with rotating item shapes/tags + all 118 item shapes x forms x tags x severities x minima "
+            "under two loggers (incl. all ordered pairs of the 8 callable shapes) + every callable shape at every grid cell + random programs and statement sequences from VERIF_SEED; thorough: the complete single-statement "
             "space (all minima x loggers x relevant thresholds x severities x 2 forms x tag/no tag x every instantiated item "
             "shape) + 900k random programs and statement sequences. Non-trivial: something was delivered or a callable was streamed. distinct = distinct case line")
     modelled_note = ("modelled, not verified: lifetime of the temporaries of a << chain and copy elision (one move per <<), overload "
